@@ -223,6 +223,77 @@ func nullBindings(r *rep.Report) {
 	}
 }
 
+// condRebinds: a code condition that returns an object extends the bindings, and a name it shares with
+// the `when` match is re-bound: every action of the rule (and the bindings recorded in the tree) sees
+// exactly the binding set the condition produced, per `when` binding.
+func condRebinds(r *rep.Report, e rep.Env) {
+	n := e.Pick(12, 60)
+	for i := 0; i < n; i++ {
+		g := gen.New(e.BatchSeed()*7919 + int64(i))
+		nv := 1 + g.Intn(3)
+		vals := []interface{}{}
+		want := []string{}
+		for j := 0; j < nv; j++ {
+			v := fmt.Sprintf("V%d%c", i, 'A'+j)
+			vals = append(vals, v)
+			for _, a := range []string{"a", "b"} {
+				want = append(want, a+":"+strings.ToLower(v)+":"+v+"!")
+			}
+		}
+		code := map[string]interface{}{"code": "({x: x.toLowerCase(), z: x + '!'})"}
+		var condition interface{} = code
+		form := g.Intn(3)
+		switch form {
+		case 1:
+			condition = map[string]interface{}{"and": []interface{}{map[string]interface{}{"pattern": map[string]interface{}{"marker": "?m"}}, code}}
+		case 2:
+			condition = map[string]interface{}{"and": []interface{}{code, map[string]interface{}{"pattern": map[string]interface{}{"marker": "?m"}}}}
+		}
+		for _, kind := range drv.Kinds {
+			loc, err := drv.NewLoc("R", kind, drv.MustMem())
+			if err != nil {
+				continue
+			}
+			loc.AddFact(drv.Ctx(), "mk", core.Map{"marker": "here"})
+			rule := core.Map{"when": map[string]interface{}{"pattern": map[string]interface{}{"wants": []interface{}{"?x"}}},
+				"condition": ref.Clone(condition),
+				"actions": []interface{}{map[string]interface{}{"code": "'a:' + x + ':' + z"}, map[string]interface{}{"code": "'b:' + x + ':' + z"}}}
+			if _, err := loc.AddRule(drv.Ctx(), "rb", rule); err != nil {
+				r.Violate("", "AddRule failed: "+err.Error(), nil)
+				continue
+			}
+			fr, cond := loc.ProcessEvent(drv.Ctx(), core.Map{"wants": ref.Clone(vals)})
+			got := []string{}
+			treeX := []string{}
+			if fr != nil {
+				for _, v := range fr.Values {
+					got = append(got, fmt.Sprint(v))
+				}
+				for _, er := range fr.Children {
+					for _, erc := range er.Children {
+						for _, era := range erc.Children {
+							treeX = append(treeX, fmt.Sprint(era.Bindings["?x"]))
+						}
+					}
+				}
+			}
+			sort.Strings(got)
+			sort.Strings(want)
+			sort.Strings(treeX)
+			wantX := []string{}
+			for _, v := range vals {
+				wantX = append(wantX, strings.ToLower(v.(string)), strings.ToLower(v.(string)))
+			}
+			sort.Strings(wantX)
+			r.Case(true, fmt.Sprint("cond-rebinds", kind, i, form))
+			r.Count("condition_rebind_cases", 1)
+			if cond != nil || fmt.Sprint(got) != fmt.Sprint(want) || fmt.Sprint(treeX) != fmt.Sprint(wantX) {
+				r.Violate("", "a code condition re-bound a `when` variable: the actions (or the bindings recorded in the tree) did not see exactly the binding set the condition produced", rep.J{"state": kind, "rule": rule, "event_wants": vals, "values": got, "want_values": want, "tree_x": treeX, "want_tree_x": wantX, "condition": cond})
+			}
+		}
+	}
+}
+
 func reservedVars(r *rep.Report, e rep.Env) {
 	type tc struct {
 		when  map[string]interface{}
@@ -334,6 +405,7 @@ func main() {
 	triggered(r, e)
 	reservedVars(r, e)
 	nullBindings(r)
+	condRebinds(r, e)
 	nWorlds := e.Pick(150, 1000)
 	arrs := [][]interface{}{{"s1"}, {"s1", "s2"}, {"s1", "s2", "x"}, {}}
 	for wi := 0; wi < nWorlds; wi++ {
